@@ -223,6 +223,11 @@ def compare_exact(md, A: str, B: str, res: Res, tag: str) -> None:
     ha, hb = md.render(A), md.render(B)
     if ha != hb:
         res.fail(f"{tag}:html-differs", f"{A!r} vs {B!r}: {ha!r} != {hb!r}"[:600])
+    ia, ib = dump(md.parseInline(A)), dump(md.parseInline(B))
+    if ia != ib:
+        res.fail(f"{tag}:parseInline-differs", f"{A!r} vs {B!r}: {first_diff(ia, ib)}"[:600])
+    elif md.renderInline(A) != md.renderInline(B):
+        res.fail(f"{tag}:renderInline-differs", f"{A!r} vs {B!r}"[:400])
 
 
 def compare_tab(md, S: str, T: str, res: Res, tag: str) -> None:
@@ -375,7 +380,9 @@ def check(case) -> Res:
         env: dict = {}
         toks = md.parse(src, env)
         has_cr_ref = bool(re.search(r"&#(?:0*13|[xX]0*[dD]);", src))
-        for where, s in _strings(toks, env):
+        env_i: dict = {}
+        toks_i = md.parseInline(src, env_i)
+        for where, s in list(_strings(toks, env)) + [("parseInline:" + w, s2) for w, s2 in _strings(toks_i, env_i)]:
             if "\0" in s:
                 res.fail("nul:reaches-output", f"{where} = {s!r}")
                 break
